@@ -6,7 +6,8 @@ from sandbox_common import stub_canary, TERMINATIONS, state, fresh, enter, use_r
 import pedal.sandbox.sandbox as SB
 
 # label of the runtime feedback expected per termination class (documented titles of pedal.sandbox.feedbacks)
-EXPECT_LABEL = {"ValueError": "value_error", "KeyError": "key_error", "ZeroDivisionError": "zero_division_error"}
+EXPECT_LABEL = {"ValueError": "value_error", "KeyError": "key_error", "KeyError()": "key_error", "IndexError()": "index_error",
+                "ZeroDivisionError": "zero_division_error"}
 HANDLED = [i for i, t in enumerate(TERMINATIONS) if t[2]]
 
 
@@ -59,8 +60,7 @@ def contain1(t0: bool, t1: bool, t2: bool, t3: bool, text: str, close: bool) -> 
     raised = state["raised"]
     flag("failed")
     exc = sb.exception
-    same = (exc is raised) or (name == "KeyError" and getattr(exc, "args", None) and exc.args[0] is raised) \
-        or (type(exc).__name__ == type(raised).__name__ and name == "KeyError")
+    same = (exc is raised) or (name.startswith("KeyError") and type(exc).__name__ == "KeyError")
     runtime = [f for f in new if f.category == "runtime"]
     if not same or len(new) != 1 or len(runtime) != 1 or not bool(runtime[0]):
         return False
